@@ -219,6 +219,30 @@ def h_linear(E, mode):
     return 'ok'
 
 
+def h_linear_zero(E, shape, samples):
+    """LinearComparer.check_comparing_zero / get_valid_modes: proportional and linear relations are dropped exactly when the student samples are
+    all (nearly) zero or the expected samples are all exactly zero - decided for every entry value"""
+    from mitxgraders.comparers import LinearComparer
+    tol = E.real('tol', 0, 1)
+    if shape == ():
+        exps = [E.real('e%d' % i, -2, 2) for i in range(samples)]
+        stus = [E.real('s%d' % i, -2, 2) for i in range(samples)]
+        e_entries = [[e] for e in exps]
+        s_entries = [[x] for x in stus]
+    else:
+        exps = [_arr(E, 'e%d_' % i, shape, -2, 2) for i in range(samples)]
+        stus = [_arr(E, 's%d_' % i, shape, -2, 2) for i in range(samples)]
+        e_entries = [[a[idx] for idx in np.ndindex(*shape)] for a in exps]
+        s_entries = [[a[idx] for idx in np.ndindex(*shape)] for a in stus]
+    got = LinearComparer.check_comparing_zero([[e] for e in exps], stus, tol)
+    expected_zero = sand(*[near_eq(v, 0) for row in e_entries for v in row])
+    student_zero = sand(*[near_le(sum(v * v for v in row), tol * tol) for row in s_entries])
+    E.check('comparing-zero-iff-either-side-is-zero', siff(bool(got) if not hasattr(got, 'e') else got, sor(expected_zero, student_zero)))
+    cmp_ = LinearComparer(equals=1.0, proportional=0.5, offset=0.25, linear=0.1)
+    E.check('zero-drops-exactly-proportional-and-linear', cmp_.get_valid_modes(True) == ('equals', 'offset') and cmp_.get_valid_modes(False) == ('equals', 'proportional', 'offset', 'linear'))
+    return 'ok'
+
+
 def harnesses(tier):
     hs = []
     T = tier == 'thorough'
@@ -244,6 +268,9 @@ def harnesses(tier):
         for detail in ('type', 'shape', None):
             for sup in (False, True):
                 add(h_shape_policy, 'shape_policy', dict(raised=raised, detail=detail, suppress=sup), 'symbolic constant')
+    for shape, samples in [((), 3), ((2,), 2), ((3,), 1)] + ([((2, 2), 2)] if T else []):
+        add(h_linear_zero, 'linear_zero', dict(shape='x'.join(map(str, shape)) or 'scalar', samples=samples), 'symbolic entries and tolerance')
+        hs[-1].params = (shape, samples)
     for mode in ('equals',) + (('offset',) if T else ()):
         add(h_linear, 'linear', dict(mode=mode), '3 scalar samples (NRA)', expect_inconclusive=True)
     return hs
